@@ -31,6 +31,7 @@ where
     /// and a given window length
     #[inline]
     pub fn new(view: V, window_len: usize) -> Self {
+        assert!(window_len >= 3, "window_len must be at least 3");
         CyberCycle {
             view,
             window_len,
